@@ -889,6 +889,33 @@ def report_correspondence_break(run, label, items, qi):
     model = run_model([seq])[0]
     bad, _ = judge(seq, impl)
     q = seq[-1]
+    if not bad:
+        # the specification makes no claim about this query (whole-state dump, reverse lookup
+        # outside the hypothesis): probe the state behind the minimised mutators with the
+        # queries it does judge
+        muts = [it for it in seq if it[0] in MUTATORS]
+        nss, names, vals = [], [], []
+        for it in muts:
+            ns = it[2] if it[0] != "remove_namespace" else it[1]
+            for cand in (ns, ns + ["zz"]):
+                if cand not in nss:
+                    nss.append(cand)
+            if it[0] != "remove_namespace" and it[3] not in names:
+                names.append(it[3])
+            if it[0] == "add" and it[4] not in vals:
+                vals.append(it[4])
+        probe = muts + battery(nss[:6], names[:4], vals[:4])
+        pbad, _ = judge(probe, run_real(probe))
+        if pbad:
+            seq2 = shrink(cut_at_query(probe, pbad[0][0]), fails_vs_spec)
+            impl2 = run_real(seq2)
+            bad2, _ = judge(seq2, impl2)
+            if bad2:
+                run.violation({"kind": "failing-input", "correspondence": label, "items": seq2,
+                               "implementation": impl2[-1], "model": run_model([seq2])[0][-1],
+                               "specification": bad2[-1][3], "first-difference": seq},
+                              signature="%s:impl-differs-from-specification" % signature_of(seq2[-1]))
+                return
     if bad:
         run.violation({"kind": "failing-input", "correspondence": label, "items": seq,
                        "implementation": impl[-1], "model": model[-1], "specification": bad[-1][3]},
